@@ -827,8 +827,17 @@ class AutoSerialize:
                 is_all_numeric = False
 
             if is_all_numeric:
-                group.attrs["_sequence_encoding"] = "ndarray"
                 arr = np.asarray(value)
+                # The single-array encoding must reproduce every element exactly: mixing floats
+                # with integers above 2**53 (or uint64 with negative integers) promotes to
+                # float64 and would round silently, so such sequences are stored per item.
+                plain = [v.item() if isinstance(v, np.generic) else v for v in value]
+                is_all_numeric = arr.dtype.kind in "biuf" and all(
+                    a == v or (a != a and v != v) for a, v in zip(arr.tolist(), plain)
+                )
+
+            if is_all_numeric:
+                group.attrs["_sequence_encoding"] = "ndarray"
                 # Store in a single dataset named 'values'
                 self._write_ndarray(group, "values", arr, compressors)
             else:
